@@ -260,6 +260,8 @@ class Explorer:
             c = op[2]
             if isinstance(c, dict) and "promoted" in c:
                 return self.eval_promoted(c["promoted"])
+            if isinstance(c, dict) and "named" in c:
+                return ("atom", "const:" + c["named"])
             if c is None:
                 return ("atom", "const:" + op[1])
             return ("k", c)
